@@ -178,6 +178,7 @@ def model_runs(tier):
 
 
 CHECK = PropertyCheck(
+    whole_run_clauses=('step_started_inside_a_step', 'evaluation_outside_a_step', 'evaluations_interleaved', 'FINISHED_EVALUATION_without_START_EVALUATION', 'FINISHED_STEP_without_START_STEP', 'step_returned_without_FINISHED_STEP', 'unmatched_START_EVALUATION_without_abort', 'abort_not_reported', 'step_refused_without_abort', 'step_ran_after_the_plan_was_aborted'),
     prop="C15", trace_module="Trace_C15", drive=drive, model_runs=model_runs,
     rule=("TLC model-checks Plan.tla (bracketing, delivery order, abort latch, nested abort reaches the parent, termination under weak "
           "fairness) for every plan shape {optimizer, evaluator, two sequential steps, nested} x run length x failing evaluation x budget "
